@@ -215,7 +215,8 @@ func Ident(path string, st *Style) string {
 	}
 	switch style {
 	case "dq":
-		return `"` + path + `"`
+		// a double quote inside a double-quoted identifier is written \" (PostgresEscapingDialect)
+		return `"` + strings.ReplaceAll(path, `"`, `\"`) + `"`
 	case "bt":
 		return "`" + path + "`"
 	}
